@@ -41,6 +41,9 @@ type faultScenario struct {
 	decode func(sink []byte) ([]byte, bool) // reference decode: content, complete&valid
 }
 
+// faultTail: scenarios whose last N sink writes are enumerated exhaustively (fail once, nothing accepted).
+var faultTail = map[string]int{"xz-300-blocks": 1300}
+
 func faultScenarios(seed int64, thorough bool) []faultScenario {
 	var out []faultScenario
 	text := MakeData("text", 900, seed)
@@ -67,6 +70,8 @@ func faultScenarios(seed int64, thorough bool) []faultScenario {
 		faultScenario{"xz-incompressible-multichunk", "xz", xzOpen(XZCfg{LC: 3, PB: 2, DictCap: 4096, BufSize: 4096, Check: -1}), []string{"W0", "C"}, [][]byte{MakeData("random", 140000, seed+2)}, decXZ},
 	)
 	out = append(out, faultScenario{"xz-raw-wrapped-ring", "xz", xzOpen(XZCfg{LC: 3, PB: 2, DictCap: 65536, BufSize: 4096, Check: 4}), []string{"W0", "C"}, [][]byte{MakeData("random", 230000, seed+7)}, decXZ})
+	// 300 blocks: the index alone is several hundred bytes, written at the very end
+	out = append(out, faultScenario{"xz-300-blocks", "xz", xzOpen(XZCfg{LC: 3, PB: 2, DictCap: 4096, BufSize: 4096, Check: 1, BlockSize: 8}), []string{"W0", "C"}, [][]byte{MakeData("text", 2400, seed+8)}, decXZ})
 	l2Open := func(g W2Cfg) func(io.Writer) (wcl, error) {
 		return func(w io.Writer) (wcl, error) { return g.lib().NewWriter2(w) }
 	}
@@ -242,6 +247,11 @@ func C09(c *hx.Ctx) {
 			for _, pl := range plans {
 				if pl.K <= m || (m > 96 && pl.K == 96) {
 					jobs = append(jobs, job{si, pl, bw})
+				}
+			}
+			for k := m - faultTail[sc.name]; faultTail[sc.name] > 0 && !bw && k <= m; k++ {
+				if k > 96 {
+					jobs = append(jobs, job{si, faultPlan{K: k}, bw})
 				}
 			}
 			// sinks with more than 96 writes (byte writers): sample further indices
